@@ -235,8 +235,35 @@ def candidates(tname, rng, n=6, with_faults=True, ccn=None, enc=False):
     return [(a, b, c, d) for a, b, c, d, _ in out]
 
 
-def sweep(types, seed=0, n=4, modes=("strict",), with_faults=True):
+def mutate(data, rng):
+    """unstructured damage: a few byte-level edits anywhere in the encoding (set / flip / delete / insert / truncate / repeat)"""
+    b = bytearray(data)
+    for _ in range(rng.choice([1, 1, 2, 3])):
+        op = rng.choice(["set", "set", "flip", "del", "ins", "trunc", "dup"])
+        if not b:
+            op = "ins"
+        if op == "set":
+            b[rng.randrange(len(b))] = rng.choice([0, 1, 0xFF, 0x80, 0x7F, rng.randrange(256)])
+        elif op == "flip":
+            i = rng.randrange(len(b))
+            b[i] ^= 1 << rng.randrange(8)
+        elif op == "del":
+            del b[rng.randrange(len(b))]
+        elif op == "ins":
+            b.insert(rng.randrange(len(b) + 1), rng.randrange(256))
+        elif op == "trunc":
+            del b[rng.randrange(len(b)):]
+        else:
+            i = rng.randrange(len(b))
+            b[i:i] = b[i:i + rng.randrange(1, 5)]
+    return bytes(b)
+
+
+def sweep(types, seed=0, n=4, modes=("strict",), with_faults=True, mutations=0):
+    """mutations: per well-formed candidate that many byte-level mutants more, compared in strict mode only (warn mode beyond the
+    first problem is where the open findings live)"""
     rng = random.Random(seed)
+    mrng = random.Random(seed * 7919 + 13)
     bad = []
     total = 0
     for t in types:
@@ -246,6 +273,13 @@ def sweep(types, seed=0, n=4, modes=("strict",), with_faults=True):
                 r = compare(t, data, cc, e, mode)
                 if r:
                     bad.append({"type": t, "mode": mode, "label": label, "input": data.hex(), "command_code": cc, "enc": e, **r})
+            if mutations and label.startswith("well-formed") and " + " not in label:
+                for k in range(mutations):
+                    d = mutate(data, mrng)
+                    total += 1
+                    r = compare(t, d, cc, e, "strict")
+                    if r:
+                        bad.append({"type": t, "mode": "strict", "label": f"{label} + byte-level mutant {k}", "input": d.hex(), "command_code": cc, "enc": e, **r})
     return total, bad
 
 
